@@ -2057,7 +2057,7 @@ class Lower:
             body = body.replace('$HOISTED<%s>' % lid, ', '.join(names) if names else 'vs_exc')
         self.calls[cname] = self.cur_calls
         for g in spec.get('ghost', []):
-            if g not in self.ghost_used:
+            if g not in self.ghost_used and not (len(g) > 3 and g[3] == 'optional'):
                 raise Abort('ghost anchor: no call to %s found in %s' % (g[0], cname))
         for nm in spec.get('after_decl', {}):
             if nm not in self.after_decl_used:
